@@ -555,7 +555,7 @@ FINDINGS = [
 <<<<<<< HEAD
     {"status": "fixed", "key": "fails-outright:exists_elim:AttributeError:'NoneType'_object_has_no", "commit": "793f072",
 =======
-    {"status": "fixed", "key": "advertised-goal-step-not-justified:apply_backward_step", "commit": "fixes/C13-9.patch",
+    {"status": "fixed", "key": "advertised-goal-step-not-justified:apply_backward_step", "commit": "7a9753d",
      "what": "apply_backward_step someI with fact 0.2.2 on logic_base.exists_thm (goal 0.2.3 `P (Some P)`) was suggested as solving but "
              "replaced the goal by `P (SOME x1. P x1)` (equal only up to eta); the state no longer re-checked"},
     {"status": "fixed", "key": "fails-outright:exists_elim:AttributeError:'NoneType'_object_has_no", "commit": "793f072",
